@@ -182,8 +182,12 @@ pub fn check_seq(c: &SeqCase) -> CaseResult {
             SOp::MergeBurst(ms) => {
                 let mut futures = vec![];
                 let mut expects = vec![];
-                for (dest, src, classes, history) in ms {
-                    let (t, m) = build_both(src, &ctl, &n);
+                let mut built = vec![];
+                for (_, src, _, _) in ms {
+                    built.push(build_both(src, &ctl, &n));
+                }
+                ctl.slow_us.store(250, std::sync::atomic::Ordering::Relaxed);
+                for ((dest, src, classes, history), (t, m)) in ms.iter().zip(built.into_iter()) {
                     futures.push(store.merge_external_noblock(*dest, t, classes.as_deref(), *history));
                     // commands to one shard are executed in order, shards are independent: the
                     // sequential application in issue order is the reference
@@ -198,6 +202,19 @@ pub fn check_seq(c: &SeqCase) -> CaseResult {
                     }
                     expects.push(expect_ok);
                 }
+                // while the merges are in flight the store is still a map of the same tracks: every
+                // stored track can be found and the per-shard counts add up (merges never add or
+                // remove tracks); sampled a few times while the (slowed down) workers are busy
+                let before_len = model.len();
+                for _ in 0..4 {
+                    let total: usize = store.shard_stats().iter().sum();
+                    ensure!(total == before_len, "store-count-during-merge", "{}", at(&format!("shard_stats sums to {} while merges are in flight, {} tracks are stored", total, before_len)));
+                    for id in model.keys() {
+                        ensure!(store.get_store(*id as usize).contains_key(id), "store-track-missing-during-merge", "{}", at(&format!("track {} cannot be found while a merge is in flight", id)));
+                    }
+                    std::thread::sleep(std::time::Duration::from_micros(120));
+                }
+                ctl.slow_us.store(0, std::sync::atomic::Ordering::Relaxed);
                 for (i, (f, e)) in futures.into_iter().zip(expects.into_iter()).enumerate() {
                     let r = f.and_then(|f| f.get());
                     ensure!(r.is_ok() == e, "merge-burst-result", "{}", at(&format!("merge {} of the burst returned {} but the model {}", i, if r.is_ok() { "Ok" } else { "Err" }, if e { "Ok" } else { "Err" })));
@@ -275,7 +292,9 @@ pub fn check_seq(c: &SeqCase) -> CaseResult {
 }
 
 fn ids() -> impl Strategy<Value = u64> {
-    prop_oneof![4 => 1u64..5, 1 => 5u64..9]
+    // mostly a small alphabet (collisions), sometimes ids beyond 32 bits (shard = id mod n must
+    // use the whole id)
+    prop_oneof![8 => 1u64..5, 2 => 5u64..9, 1 => prop_oneof![Just(1u64 << 32), Just((1u64 << 32) + 1), Just((1u64 << 40) + 7), Just(u64::MAX), Just(u64::MAX - 1)]]
 }
 
 fn opt_classes() -> impl Strategy<Value = Option<Vec<u64>>> {
